@@ -315,7 +315,7 @@ class Report:
 TRUSTED_BASE = [
     'Coq 8.16.1 kernel incl. vm_compute (no native_compute)',
     'hand-written Gallina models under /verif/coq/Model (tie: correspondence runs + Gen/SrcParams.v)',
-    'harness/srcparams.py (ast extraction of constants/operators from /repo)',
+    'harness/srcparams.py (ast extraction of constants/operators from /repo; where a shape is not recognised, harness/srcprobe.py\'s behavioural probe of the function, listed under srcparams_inferred)',
     'harness emit/canonicalisation code and the Python runtime below labtech (pickle, json, sha1, pathlib, multiprocessing)',
 ]
 
@@ -345,7 +345,8 @@ def proof_stage(report, prop):
     report.coverage.update(obligations=obligations, discharged=discharged,
                            checker_cmd=f'make -C coq Properties/{prop}.vo && coqc Properties/{prop}.v (Print Assumptions)',
                            trusted_base=TRUSTED_BASE, cone=cone,
-                           print_assumptions=assumptions, srcparams_changed=changed)
+                           print_assumptions=assumptions, srcparams_changed=changed,
+                           srcparams_inferred=list(srcparams.INFERRED))
     return ok
 
 
